@@ -79,7 +79,13 @@ def case_roundtrip(ctx):
     rng = ctx.rng
     nf, subs, idx_kind = build(ctx)
     cfg = rand_cfg(rng)
-    src, d = write(nf, cfg, ctx)
+    w = call_real(lambda: write(nf, cfg, ctx))
+    if "err" in w:
+        # writing a valid frame must succeed in every configuration (first half of the round trip)
+        ctx.case("parquet.write", {"cfg": cfg, "index": idx_kind, "frame": {k: s.desc() for k, s in subs.items()}}, w, None,
+                 {"ok": True}, features=(f"rg={cfg['row_group_size']}", f"n={len(nf)}"), spec_ok=False, nontrivial=True)
+        return
+    src, d = w["ok"]
     try:
         feats = (f"index={idx_kind}", f"rg={cfg['row_group_size']}", cfg["compression"], f"dict={cfg['use_dictionary']}",
                  f"path={cfg['path']}", f"n={len(nf)}")
